@@ -193,6 +193,27 @@ def scenario(rng, regime=None, pair=None, n=None, lkind=None, tkind=None, nupd=N
                 params=params, seed=int(rng.integers(0, 2**31 - 1)))
 
 
+BLOCK_N_QUICK = (63, 64, 65, 127, 128, 129, 255, 256, 257, 512, 1000, 1024)
+BLOCK_N_THOROUGH = BLOCK_N_QUICK + (192, 384, 511, 513, 640, 768, 896, 1023, 1025, 2000, 2047, 2048, 2049, 4096)
+
+
+def block_scenarios(rng, tier="quick", regimes=(4, 6), sizes=None, nupd=1):
+    """Histories whose grain count sits on a block boundary (powers of two and neighbours, multiples of
+    64 / 128 / 256 / 1000 / 1024): a size-dependent path of the rate kernel (seeded change C03d: block-wise
+    sum wrong for multiples of 128) is invisible at the 2..24 grains of the ordinary scenarios.  One update of
+    a 1024-grain aggregate costs ~0.1 s."""
+    sizes = sizes if sizes is not None else (BLOCK_N_QUICK if tier == "quick" else BLOCK_N_THOROUGH)
+    out = []
+    for i, n in enumerate(sizes):
+        sc = scenario(rng, regime=int(regimes[i % len(regimes)]), n=int(n), nupd=nupd,
+                      lkind=("simple", "general", "time", "pure")[i % 4], tkind=T_KINDS[i % len(T_KINDS)],
+                      strain=float(rng.uniform(0.1, 0.4)))
+        sc["params"]["gbm_mobility"] = float(rng.uniform(20, 200))     # the volume block must move
+        sc["block_size_family"] = True
+        out.append(sc)
+    return out
+
+
 def build(sc, assemblage=None, fractions=None):
     """Instantiate mineral, params dict, L callable and position callable of a scenario."""
     import pydrex
